@@ -21,6 +21,15 @@
 (* Requirement: the listing of a level is the strictly ascending sequence  *)
 (* of the distinct valid keys present (sorted + duplicate-free, invalid    *)
 (* names rejected), hence "latest" = last = maximum.                       *)
+(*                                                                         *)
+(* Committing a generation (Release.put, the way every training / tuning   *)
+(* ends) is defined on EVERY level state, not only on the contiguous       *)
+(* listings 1..n the life cycle alone produces (generations stored under   *)
+(* explicit numbers through the provider API or pruned from the storage    *)
+(* leave gaps, and foreign names may sit next to them): the new generation *)
+(* gets the successor of the latest key (1 on an empty level), so it is a  *)
+(* NEW key (nothing written earlier is replaced) and the new maximum (the  *)
+(* next run, which opens "latest", continues from what was committed).     *)
 (***************************************************************************)
 EXTENDS Integers, Sequences, FiniteSets, TLC, Json
 CONSTANTS Mode,       \* "release" | "generation"
@@ -29,8 +38,9 @@ CONSTANTS Mode,       \* "release" | "generation"
           NSpell,     \* spellings per valid key (rendered by the harness)
           NInvalid    \* number of invalid names
 VARIABLES dirs,      \* the sub-directories of the level
-          listing    \* what listing the level returns
-vars == <<dirs, listing>>
+          listing,   \* what listing the level returns
+          put        \* number of the generation committed on top of this level (0 = nothing committed yet)
+vars == <<dirs, listing, put>>
 
 None == -1
 Inf == 1000000
@@ -165,11 +175,16 @@ Sorted(S) == IF S = {} THEN <<>> ELSE LET m == CHOOSE x \in S : \A y \in S : ~Le
 Listing == listing
 Latest == IF Listing = <<>> THEN 0 ELSE Listing[Len(Listing)]       \* 0 = Listing.Empty
 
-Init == dirs = {} /\ listing = <<>>
-Mkdir(d) == d \notin dirs /\ Cardinality(dirs) < MaxKeys /\ dirs' = dirs \cup {d} /\ listing' = Sorted(KeysOf(dirs'))
+Init == dirs = {} /\ listing = <<>> /\ put = 0
+Mkdir(d) == /\ put = 0 /\ d \notin dirs /\ Cardinality(dirs) < MaxKeys
+            /\ dirs' = dirs \cup {d} /\ listing' = Sorted(KeysOf(dirs')) /\ UNCHANGED put
 AddValid(d) == Accepted(d) /\ Mkdir(d)
 AddInvalid(d) == ~Accepted(d) /\ Mkdir(d)
-Next == \E d \in Entries : AddValid(d) \/ AddInvalid(d)
+\* Release.put: the generation after the latest one, the first one on a level without a valid generation
+\* (`dirs` / `listing` keep describing the level the commit started from; the level afterwards is ListingAfter)
+NextGen == IF Latest = 0 THEN 1 ELSE Gens[Latest] + 1
+Commit == Mode = "generation" /\ put = 0 /\ put' = NextGen /\ UNCHANGED <<dirs, listing>>
+Next == Commit \/ \E d \in Entries : AddValid(d) \/ AddInvalid(d)
 Spec == Init /\ [][Next]_vars
 
 \* one invariant per clause
@@ -182,12 +197,23 @@ LatestIsMax == IF Latest = 0 THEN \A d \in dirs : ~Accepted(d)
 GenerationsNatural == Mode = "generation" => \A i \in 1..Len(Listing) : Gens[Listing[i]] >= 1 /\
                           (i > 1 => Gens[Listing[i - 1]] < Gens[Listing[i]])
 
+\* a committed generation is a natural number from one, a key that was not there (nothing is replaced) and the new maximum
+Committed == put # 0
+GenNumbers == [i \in 1..Len(Listing) |-> Gens[Listing[i]]]
+ListingAfter == IF Committed THEN Append(GenNumbers, put) ELSE GenNumbers            \* as generation numbers
+CommitIsNatural == Committed => put >= 1
+CommitIsNew == Committed => \A d \in dirs : Accepted(d) => Gens[d.v] # put
+CommitIsLatest == Committed => /\ \A d \in dirs : Accepted(d) => Gens[d.v] < put
+                               /\ \A i \in 1..(Len(ListingAfter) - 1) : ListingAfter[i] < ListingAfter[i + 1]
+CommitIsSuccessor == Committed => put = (IF Listing = <<>> THEN 1 ELSE Gens[Listing[Len(Listing)]] + 1)
+
 \* exports: the lattice with the full comparison matrix once, the expected listing of every level state
 SetToSeq(S) == LET RECURSIVE F(_) F(T) == IF T = {} THEN <<>> ELSE LET x == CHOOSE y \in T : TRUE IN <<x>> \o F(T \ {x}) IN F(S)
 Lattice == [mode |-> Mode,
             keys |-> IF Mode = "release" THEN [i \in VIdx |-> [ver |-> Versions[i], gen |-> 0, valid |-> TRUE, canon |-> Canon(i)]]
                      ELSE [i \in VIdx |-> [ver |-> Ver(0, <<>>, 0, 0, None, None, NoLoc), gen |-> Gens[i], valid |-> ValidIdx(i), canon |-> Canon(i)]],
             cmp |-> [i \in VIdx |-> [j \in VIdx |-> Cmp(i, j)]]]
-Export == /\ (dirs = {} => PrintT(ToJson([lattice |-> Lattice])))
-          /\ PrintT(ToJson([dirs |-> SetToSeq(dirs), listing |-> Listing, latest |-> Latest]))
+Export == /\ (dirs = {} /\ put = 0 => PrintT(ToJson([lattice |-> Lattice])))
+          /\ PrintT(ToJson([dirs |-> SetToSeq(dirs), listing |-> Listing, latest |-> Latest, put |-> put,
+                            after |-> IF Mode = "generation" THEN ListingAfter ELSE <<>>]))
 =============================================================================
